@@ -789,11 +789,12 @@ def run(ctx):
 
 
 PARTIAL = [
-    "Tight (fill / mono / indexed / full-colour / NoZlib), TightPng, Ultra (LZO): no encoder model, no theorem; every run decodes the real output with an independent Python decoder (zlib via Python, 4 persistent Tight streams; PNG in Python; LZO via the repository's minilzo in the harness) and with the Lean Tight/Ultra container decoder, and compares with the pre-encode snapshot exactly",
+    "Tight without JPEG is modelled and proved per sub-rectangle (server_tight_subrect_decodes, tpixel_law_*), its splitting and solid-area search are proved sound for every choice (tight_plan_tiles, tight_plan_fills_are_solid); the faithful search model tightRect is compared with the wire on every run but not proved to be an instance of planPieces",
+    "TightPng: PNG rectangles have no model (PNG codec trusted); its basic rectangles (8 bpp) are validated per run by the independent decoders only",
+    "Ultra: container proved under LzoLaw (ultra_rect_decodes); the LZO codec itself is trusted (repository's minilzo decompressor in the harness)",
     "TightPng PNG rectangles: exact whenever the server's or the client's colour channels are 8 bits wide; for other combinations (e.g. 5-bit server channels, 7-bit client channels) the client-side rescaling of the 8-bit PNG samples is unspecified and double rounding may cost one least-significant step of the client channel (bound png_bound, measured maximum in the evidence)",
     "Tight-JPEG: per-run validation only, per-channel error bound by quality level (JPEG_BOUND in vlib/props/c01.py, measured maxima in the evidence)",
     "ZYWRLE: per-run validation of the container and of every tile that is not wavelet-coded (exact); wavelet-coded raw tiles are only checked for well-formedness (no inverse transform, no error bound)",
-    "rectangle splitting of CoRRE / Zlib / Ultra is modelled (correSplit, zlibSplit) and compared with the wire on every run, but 'the pieces tile the rectangle' is not a theorem (the run checks area and containment)",
     "the model abstracts zrlePaletteHelper's hash table to 'index of first occurrence in the palette list'",
     "translation to the client's pixel format (translate.c) is trusted here (subject of C10): the snapshot is produced by the harness's own call of cl->translateFn on the whole rectangle",
 ]
@@ -809,8 +810,8 @@ TRUSTED_EXTRA = [
 ]
 
 META = {
-    "technique": "Lean 4 theorems: decode(serverEncoderModel P) = P for faithful models of Raw(+updateBuf batching), RRE, CoRRE, Hextile, ZRLE tiles (all P, geometries), decode(encodeWith choices P) = P for choice-parametrised reference encoders, zlib container/sequence composition under an explicit zlib law; tied to the code on every run by byte-exact comparison of the models with the real encoders, by spec-decoding the real wire bytes in Lean, and by an independent Python decoder compared with the pre-encode snapshot",
+    "technique": "Lean 4 theorems: decode(serverEncoderModel P) = P for faithful models of Raw(+updateBuf batching), RRE, CoRRE, Hextile(+updateBuf bound), ZRLE tiles, Tight without JPEG (palette analysis, solid/mono/indexed/full colour, Pack24, CompressData, compact length) (all P, geometries); the pieces of CoRRE/Zlib/Ultra/Tight splitting tile the rectangle (for Tight: for every outcome of the solid-area search), decode(encodeWith choices P) = P for choice-parametrised reference encoders, zlib container/sequence composition under an explicit zlib law; tied to the code on every run by byte-exact comparison of the models with the real encoders, by spec-decoding the real wire bytes in Lean, and by an independent Python decoder compared with the pre-encode snapshot",
     "level_text": "Proof: Enc/Spec.lean holds decoders written from the RFB rules; Enc/Server.lean + Enc/UpdateBuf.lean hold bug-for-bug models of rfbSendRectEncodingRaw, subrectEncode (rre.c/corre.c/hextile.c), the Hextile tile loop and ZRLE_ENCODE_TILE; Props/C01.lean proves that every model output decodes to exactly its input, that the byte stream is independent of where updateBuf flushes, and that rectangles/updates compose over a persistent zlib stream.  Tie: harness/c01.c runs the real encoders (3 server depths x 23 client formats x 10 encodings x levels, boundary geometries, >=3 updates per connection); models are compared byte for byte, the Lean spec decoder and an independent Python decoder must both reproduce the hook snapshot.",
-    "level_note": "Trusted: Lean kernel (propext/Classical.choice/Quot.sound), T0 probes, harness/generator/Python decoder/compiled driver (testing; measured distribution in the evidence), zlib/LZO/libjpeg/libpng, cl->translateFn (C10).  No theorem for Tight/TightPng/Ultra/JPEG/ZYWRLE (per-run validation only; ZYWRLE wavelet tiles not inverse-transformed); CPIXEL rule of the code differs from the RFC for depth>24 (known finding cpixel-depth).",
+    "level_note": "Trusted: Lean kernel (propext/Classical.choice/Quot.sound), T0 probes, harness/generator/Python decoder/compiled driver (testing; measured distribution in the evidence), zlib/LZO/libjpeg/libpng, cl->translateFn (C10).  No theorem for TightPng's PNG path, Tight-JPEG, ZYWRLE (per-run validation only; ZYWRLE wavelet tiles not inverse-transformed); zlib/LZO are parameters with explicit laws; CPIXEL rule of the code differs from the RFC for depth>24 (known finding cpixel-depth).",
     "design_ref": "DESIGN.md section 7, C01",
 }
